@@ -9,7 +9,7 @@ import terms as tm
 import nf
 from spec import Spec
 from matmodel import MatModel, DIMS
-from lift import value_lanes, strip_ref, result_of
+from lift import value_lanes, strip_ref, result_of, ArgView
 from common import api_roots, vec_info, tydef, TRUSTED_COMMON
 
 LEVEL = 'other'
@@ -68,6 +68,9 @@ def run(ctx):
             elif (not tr and mname in ('mul_scalar', 'div_scalar')) or (tr in ('Mul', 'Div', 'MulAssign', 'DivAssign') and body['argc'] == 2 and F.types[strip_ref(F, argtys[1])[0]].get('k') == 'float') \
                     or (tr == 'Mul' and body['argc'] == 2 and F.types[strip_ref(F, argtys[0])[0]].get('k') == 'float' and M.info(strip_ref(F, argtys[1])[0]) is not None):
                 kind = 'scalar'
+            elif (not tr and re.match(r'^mul_vec\da?$', mname) and body['argc'] == 2) or \
+                    (tr == 'Mul' and body['argc'] == 2 and M.info(strip_ref(F, argtys[0])[0]) is not None and vec_info(F, strip_ref(F, argtys[1])[0]) is not None):
+                kind = 'matvec'
             elif tr == 'Neg':
                 kind = 'neg'
             elif not tr and mname == 'determinant':
@@ -112,7 +115,25 @@ def run(ctx):
             if A is None or (kind in ('matmul', 'addsub') and B is None) or (kind == 'scalar' and scal is None):
                 ctx.unverifiable('R-ALG', cfg, name, 'operands not recognised')
                 continue
-            if kind == 'det':
+            if kind == 'matvec':
+                vv = ArgView(F, r, 1, argtys[1])
+                lanes_r = value_lanes(F, val, oty) if val is not None else None
+                if vv.lanes is None or lanes_r is None or len(vv.lanes) < n or len(lanes_r) < n:
+                    ctx.unverifiable('R-ALG', cfg, name, 'vector operand / result lanes not found')
+                    continue
+                v_ = [alg.nf(x) for x in vv.lanes[:n]]
+                exp_v = S.matvec(A, v_, n, n)
+                for i_ in range(n):
+                    if not S.eq(alg.nf(lanes_r[i_]), exp_v[i_]):
+                        bad = 'component %d of matrix * vector differs from sum_c M[c][%d] * v[c]: got %s' % (i_, i_, alg.nf(lanes_r[i_])[0].show(alg.name, 8))
+                        break
+                if not bad:
+                    ds = [nf.rounding_depth(x) for x in lanes_r[:n]]
+                    Ks = [cancellation(alg.nf(x)[0], nf.abs_nf(alg, x)) for x in lanes_r[:n]]
+                    note = {'rounding_depth': ds, 'K': Ks}
+                    if any(d is None or d > DEPTH_LIMIT['vec'] for d in ds) or any(K != 1 for K in Ks):
+                        bad = 'rounding certificate fails: depths=%s K=%s' % (ds, Ks)
+            elif kind == 'det':
                 got = alg.nf(r.ret)
                 if not S.eq(got, S.det(A, n)):
                     bad = 'determinant differs from the Leibniz polynomial: got %s' % got[0].show(alg.name, 8)
